@@ -212,7 +212,8 @@ def run(pid, spec, args, seed, t0, outdir, scratch):
             confirmed = R.replay_violation(pid, c, r, main, rp, scratch, all_failed=fls)
         else:
             confirmed = R.replay_violation(pid, None, r, main, rp, scratch, all_failed=fls)
-        line = "VIOLATION property=%s replay=%s obligation=%s failed_obligations=%d" % (pid, rp, main["property"], len(fls))
+        vlines.append("FAILED-OBLIGATION: property=%s cell=%s obligation=%s (%d failed obligations in this cell; listed in the replay file)" % (pid, cid, main["property"], len(fls)))
+        line = "VIOLATION property=%s replay=%s" % (pid, rp)
         if not confirmed:
             line += " no-failing-input-found"
         vlines.append(line)
@@ -242,7 +243,7 @@ def run(pid, spec, args, seed, t0, outdir, scratch):
         print("UNDECIDED: %s" % u[:600])
     for l in vlines:
         print(l)
-    if vlines:
+    if any(l.startswith("VIOLATION") for l in vlines):
         return 1
     if undecided or extraction_errors:
         return 2
